@@ -35,7 +35,7 @@ CLAIMS = {
          "DESIGN.md 3 (C03), 9.5"),
  "C04": ("Narrow, per-function part of the read path: the index value codec (serializeIndexableEntry / valueRefFrom) round-trips vLen, vOff, hVal, metadata "
          "presence, tx and revision for every input and rejects short or over-long input without panic; ImmuStore.History and Snapshot.History number "
-         "revisions offset+1+k ascending and hCount-offset-k descending (running-revision loop invariant); GetWithFilters / GetWithPrefixAndFilters return an "
+         "revisions offset+1+k ascending and hCount-offset-k descending (running-revision loop invariant); tbtree leafValue.history continues the numbering of the in-memory versions when it reads the on-disk history log (loop invariant ti >= len(timedValues)); GetWithFilters / GetWithPrefixAndFilters return an "
          "entry XOR an error and every filter applied so far returned nil at every loop head; IgnoreDeleted / IgnoreExpired / Deleted / ExpiredAt predicates; "
          "WaitForIndexingUpto returns nil only if every indexer wait it issued returned nil. Not decided: indexSince (bulk preparation), the B-tree (C10), "
          "key readers, every asynchronous behaviour, restart.",
